@@ -370,8 +370,15 @@ func (a Float) M__bool__() (Object, error) {
 }
 
 func (a Float) M__int__() (Object, error) {
-	if a >= IntMin && a <= IntMax {
+	// -IntMin == 2**63 is exact as a float, IntMax is not
+	if a >= IntMin && a < -IntMin {
 		return Int(a), nil
+	}
+	if math.IsInf(float64(a), 0) {
+		return nil, ExceptionNewf(OverflowError, "cannot convert float infinity to integer")
+	}
+	if math.IsNaN(float64(a)) {
+		return nil, ExceptionNewf(ValueError, "cannot convert float NaN to integer")
 	}
 	frac, exp := math.Frexp(float64(a))              // x = frac << exp; 0.5 <= abs(x) < 1
 	fracInt := int64(frac * (1 << float64precision)) // x = frac << (exp - float64precision)
